@@ -379,6 +379,20 @@ let eval (x : sx) : sx =
        | Some (k, v) -> L [A "ok"; sz k; sz v] | None -> L [A "ok"; A "none"])
   | L [A "chronon"; ps; convs] ->
       L (A "ok" :: List.map (fun (k, v) -> L [sz k; sz v]) (dict_to_chronon (pairs_of ps) (pairs_of convs)))
+  | L (A "lazy2" :: force :: ops) ->
+      (* histories with a second wrapper on the same file (c2), in-place mutation of the argument object (m = a call
+         with the mutated object) and removal of the cache file (del): the file is the only state *)
+      let f (a : z) : z = z_of_int (int_of_z a * int_of_z a + 1) in
+      let eqb (a : z) (b : z) = int_of_z a = int_of_z b in
+      let rec go st ops acc =
+        match ops with
+        | [] -> List.rev acc
+        | L [A "del"] :: r -> go None r (A "del" :: acc)
+        | L [A _; a] :: r ->
+            let ((v, st'), ran) = lazy_call eqb f (bi force) st (zi a) in
+            go st' r (L [sz v; sb ran] :: acc)
+        | _ -> failwith "lazy op" in
+      L (A "ok" :: go None ops [])
   | L (A "lazy" :: force :: calls) ->
       (* wrapped function: a -> a * a + 1 *)
       let f (a : z) : z = z_of_int (int_of_z a * int_of_z a + 1) in
